@@ -635,6 +635,13 @@ func runBridgeCase(t *testing.T, r *Rec, prop string, nops int) {
 			for tk := 1; tk <= b.nTok; tk++ {
 				supBefore[tk] = e.in.BankKeeper.GetSupply(e.ctx, e.denoms[tk-1]).Amount.BigInt()
 			}
+			if len(e.batchList()) > 0 && r.Rng.Intn(4) == 0 {
+				b.faultSweep(fmt.Sprintf("endblock %d %d", h, now.Unix()))
+				// re-arm the fault chosen for the real end-block below
+				var k, n int
+				fmt.Sscanf(spec, "%d:%d", &k, &n)
+				e.fault.Reset(brTargets[k], n)
+			}
 			e.endBlock()
 			// ghost: burned = transfers pending before the block that are pending nowhere after it
 			pendingAfter := map[int]bool{}
@@ -705,6 +712,69 @@ func runBridgeCase(t *testing.T, r *Rec, prop string, nops int) {
 }
 
 func (b *brHarness) monitorNoSupply(op string) { b.monitor(op) }
+
+// faultSweep: the property quantifies over a failure at ANY collaborator call of a step. For the
+// end-of-block housekeeping about to run, every (collaborator class, call index) it makes is failed in
+// turn on a throw-away branch of the state, and the structural clauses are evaluated on the result:
+// every transfer pending before is afterwards in exactly one place or gone, never in two; the escrow
+// equals the sum of amount plus tax over what is pending.
+func (b *brHarness) faultSweep(op string) {
+	e := b.e
+	saved := e.ctx
+	defer func() { e.ctx = saved; e.fault.Reset("", 0) }()
+	// count the calls of a fault-free run
+	e.fault.Reset("", 0)
+	cctx, _ := saved.CacheContext()
+	e.ctx = cctx
+	e.endBlock()
+	counts := map[string]int{}
+	for k, v := range e.fault.Counts {
+		counts[k] = v
+	}
+	e.ctx = saved
+	for _, target := range brTargets[1:] {
+		for nth := 1; nth <= counts[target] && nth <= 6; nth++ {
+			cctx, _ := saved.CacheContext()
+			e.ctx = cctx
+			e.fault.Reset(target, nth)
+			e.endBlock()
+			b.r.Stat("faultsweep.points")
+			places := map[int]int{}
+			pend := map[int]*big.Int{}
+			for tk := 1; tk <= b.nTok; tk++ {
+				pend[tk] = new(big.Int)
+			}
+			add := func(x obsTx, tok int) {
+				places[x.id]++
+				a, _ := new(big.Int).SetString(x.amount, 10)
+				tx, _ := new(big.Int).SetString(x.tax, 10)
+				if pend[tok] != nil {
+					pend[tok].Add(pend[tok], a).Add(pend[tok], tx)
+				}
+			}
+			for _, x := range e.poolTxs() {
+				add(x, x.tok)
+			}
+			for _, bb := range e.batchList() {
+				for _, x := range bb.txs {
+					add(x, bb.tok)
+				}
+			}
+			in := map[string]interface{}{"ops": append(append([]string{}, b.ops...), fmt.Sprintf("%s with the %d. %s call failing", op, nth, target))}
+			for id, n := range places {
+				if n > 1 {
+					b.r.Hit("exactly_one_place", fmt.Sprintf("transfer %d is in %d places after `%s` with the %d. call of %s failing", id, n, op, nth, target), in)
+				}
+			}
+			for tk := 1; tk <= b.nTok; tk++ {
+				if esc := e.escrow(tk); esc.BigInt().Cmp(pend[tk]) != 0 {
+					b.r.Hit("escrow_eq_pending", fmt.Sprintf("token %d: escrow %s but pending transfers total %s after `%s` with the %d. call of %s failing", tk, esc, pend[tk], op, nth, target), in)
+				}
+			}
+			e.ctx = saved
+		}
+	}
+}
 
 // evidenceOp: somebody replays a validator's signature as bad-signature evidence — over a
 // checkpoint the chain really issued (must never jail), over a forged variant of a batch
